@@ -6,6 +6,7 @@
  *   --p1 = depth.
  * mode 1 (--p0 1): every conventional file (convgen, <= --p1 lines, <= --p2 decorations) parsed, same battery. */
 #include "e2common.h"
+#include <errno.h>
 #include "convgen.h"
 
 static int mode;
@@ -17,9 +18,11 @@ static const char *RK[3] = { "x", "y", "q" };
 #define NRO (3 + 9 * 17 + 3 + 1 + 2 + 1)
 
 /* the i-th read-only call; its complete result as text */
+static int ro_errno;      /* what the environment holds in errno when the call is made */
 static void ro_call(int i, econf_file *kf, sbuf *out)
 {
   sb_reset(out);
+  errno = ro_errno;
   if (i == 0) { size_t n = 0; char **g = NULL; int rc = econf_getGroups(kf, &n, &g); sb_printf(out, "getGroups rc=%d", rc); if (!rc) { for (size_t j = 0; j < n; j++) sb_printf(out, " %s", g[j]); econf_freeArray(g); } return; }
   if (i == 1 || i == 2) { size_t n = 0; char **k = NULL; int rc = econf_getKeys(kf, i == 1 ? NULL : "A", &n, &k); sb_printf(out, "getKeys rc=%d", rc); if (!rc) { for (size_t j = 0; j < n; j++) sb_printf(out, " %s", k[j]); econf_freeArray(k); } return; }
   i -= 3;
@@ -140,33 +143,38 @@ static void bfs_state_hook(const bfs_hist *h)
   battery(kf, sig.s, rebuild_hist, (void *)(uintptr_t)h);
   econf_freeFile(kf);
   if (h->len <= pair_depth && !mc_case_failed) {
-    /* every ordered pair r1; r2: r2 answers as it does alone */
+    /* the answer of a query does not depend on what earlier calls (of the library or of anybody else) left in errno */
     static char *alone[NRO];
     sbuf r = {0};
     kf = e2_replay(h, &m);
-    for (int i = 0; i < NRO; i++) { ro_call(i, kf, &r); free(alone[i]); alone[i] = xstrdup(r.s); }
-    econf_freeFile(kf);
+    for (int i = 0; i < NRO; i++) { ro_errno = 0; ro_call(i, kf, &r); free(alone[i]); alone[i] = xstrdup(r.s); }
+    for (int i = 0; i < NRO && !mc_case_failed; i++) {
+      ro_errno = ERANGE; ro_call(i, kf, &r); ro_errno = 0;
+      mc_st->libcalls++;
+      if (strcmp(r.s, alone[i])) mc_fail(sig.s, "the query that answers [%s] when errno is 0 answers [%s] when an earlier call has left ERANGE in errno; %s", alone[i], r.s, sig.s);
+    }
+    /* every ordered pair r1; r2 (r2 directly after r1): r2 answers as it does alone. The object is the same throughout: the
+     * battery above has shown that no query changes it. */
     for (int r1 = 0; r1 < NRO && !mc_case_failed; r1++) {
-      kf = e2_replay(h, &m);
       sbuf t = {0};
-      ro_call(r1, kf, &t);
       for (int r2 = 0; r2 < NRO; r2++) {
+        ro_call(r1, kf, &t);
         ro_call(r2, kf, &r);
-        mc_st->libcalls++;
+        mc_st->libcalls += 2;
         if (strcmp(r.s, alone[r2])) {
-          /* r2 may have been disturbed by any call since r1; confirm on a fresh object with exactly r1; r2 */
+          /* confirm on a fresh object with exactly r1; r2 */
           econf_file *f = e2_replay(h, &m); sbuf u = {0};
           ro_call(r1, f, &u); ro_call(r2, f, &u);
           if (strcmp(u.s, alone[r2])) { mc_fail(sig.s, "after the query [%s] the query that alone answers [%s] answers [%s]; %s", t.s, alone[r2], u.s, sig.s); }
-          else mc_fail(sig.s, "a sequence of queries starting with [%s] changed the answer of [%s] to [%s]; %s", t.s, alone[r2], r.s, sig.s);
+          else mc_fail(sig.s, "a sequence of queries ending with [%s] changed the answer of [%s] to [%s]; %s", t.s, alone[r2], r.s, sig.s);
           sb_free(&u); econf_freeFile(f);
           break;
         }
       }
       sb_free(&t);
-      econf_freeFile(kf);
       mc_extra(0, "query_pairs", NRO);
     }
+    econf_freeFile(kf);
     sb_free(&r);
   }
   mc_st->compared++;
@@ -252,6 +260,8 @@ int main(int argc, char **argv)
   if (mode == 0) {
     /* values on purpose: mixed-case boolean words, non-boolean text, numbers in several notations, blanks, empty */
     e2_val[0] = "Yes Please"; e2_val[1] = "TRUE"; e2_val[2] = "0x10"; e2_val[3] = " 7"; e2_val[4] = ""; e2_val[5] = "No"; e2_nval = 6;
+    /* --p3 = 1: numbers at the edges of the types instead - getters that succeed or fail with ERANGE inside, infinities */
+    if (mc_opt.param[3] == 1) { e2_val[0] = "inf"; e2_val[1] = "1e300"; e2_val[2] = "99999999999999999999"; e2_val[3] = "1e-320"; e2_val[4] = "-inf"; e2_nval = 5; }
     e2_sec[0] = NULL; e2_sec[1] = "A"; e2_nsec = 2;
     e2_nkey = 2;
     int depth = mc_opt.param[1] ? (int)mc_opt.param[1] : 3;
